@@ -194,6 +194,29 @@ spec:
 ---
 apiVersion: networking.istio.io/v1
 kind: DestinationRule
+metadata: {name: dr-b2, namespace: ns-b}
+spec:
+  host: b.example.com
+  subsets:
+  - {name: s1, labels: {app: b}, trafficPolicy: {connectionPool: {tcp: {maxConnections: 5}}}}
+---
+apiVersion: networking.istio.io/v1
+kind: ServiceEntry
+metadata: {name: se-a-nsb, namespace: ns-b}
+spec:
+  hosts: [a.example.com]
+  exportTo: ["."]
+  ports:
+  - {number: 80, name: http, protocol: HTTP}
+  - {number: 9000, name: tcp, protocol: TCP}
+  resolution: STATIC
+  location: MESH_INTERNAL
+  endpoints:
+  - {address: 10.8.0.1, locality: region1/zone1/sub1, network: net1, labels: {app: a, version: v1, tier: gold}}
+  - {address: 10.8.1.1, locality: region2/zone1/sub1, network: net2, labels: {app: a, version: v2, tier: silver}}
+---
+apiVersion: networking.istio.io/v1
+kind: DestinationRule
 metadata: {name: dr-dns, namespace: default}
 spec:
   host: dns.example.com
@@ -506,14 +529,15 @@ var keysOptional = []string{"name: dr-a,", "name: dr-a-nsb,", "name: dr-b,", "na
 	"",                  // bit 16: features.EnableDualStack
 	"",                  // bit 17: XDSCacheMaxSize = 6
 	"name: vs-tls-src,", // bit 18: OPT-IN
-	"name: vs-b,"}
+	"name: vs-b,",
+	"name: se-a-nsb,"} // bit 20: OPT-IN: the hostname a.example.com exists in ns-b too (private to it)
 
 // The VirtualServices with source matches make route "80" (which carries every HTTP virtual service) uncacheable for
 // every proxy they are visible to; they are present only in the worlds that ask for them, so that route 80 is served
 // from the cache for namespace-default proxies in most worlds.
-var keysOptIn = map[int]bool{9: true, 10: true, 18: true}
+var keysOptIn = map[int]bool{9: true, 10: true, 18: true, 20: true}
 
-const keysWorldBits = 20
+const keysWorldBits = 21
 
 func keysConfig(variant int) string {
 	docs := strings.Split(keysMesh, "\n---\n")
@@ -543,6 +567,7 @@ type keysWorld struct {
 
 	sdsClients map[cluster.ID]kubelib.Client // the kube clients behind the SDS credentials controllers
 
+	passive bool         // generateWith runs for a passive reader (zero Start)
 	rec     *recCache    // recording wrapper around the shared cache (writers.go)
 	ambient *ambientStub // the world's ambient index (writers.go)
 }
@@ -601,6 +626,7 @@ func newKeysWorld(variant int) *keysWorld {
 	}
 	features.EnableCDSCaching, features.EnableRDSCaching = true, true
 	features.EnableDualStack = variant&(1<<16) != 0 // ISTIO_DUAL_STACK
+	features.EnableIngressWaypointRouting = true    // routers send to the waypoint of a service that asks for it (ambientStub)
 	features.EnableIPAutoallocate = false           // ServiceEntries without addresses get 240.240.x.y (DNS capture matters)
 	f := &failer{}
 	m := mesh.DefaultMeshConfig()
@@ -995,10 +1021,21 @@ func (w *keysWorld) generate(p *model.Proxy) map[string]proto.Message {
 	return w.generateWith(w.gens, p)
 }
 
+// readWith is generateWith for a PASSIVE reader: its PushRequest has a zero Start, so every Add it causes is a no-op in
+// the real cache (lruCache.Add returns at once) - it reads what the real writers stored and never stores anything itself.
+func (w *keysWorld) readWith(gs genSet, p *model.Proxy) map[string]proto.Message {
+	w.passive = true
+	defer func() { w.passive = false }()
+	return w.generateWith(gs, p)
+}
+
 // generateWith runs one set of generators for a proxy with the current global context and Start = now.
 func (w *keysWorld) generateWith(gs genSet, p *model.Proxy) map[string]proto.Message {
 	out := map[string]proto.Message{}
 	req := &model.PushRequest{Forced: true, Push: w.s.PushContext(), Start: time.Now()}
+	if w.passive {
+		req.Start = time.Time{}
+	}
 	add := func(prefix string, rs model.Resources) {
 		for _, r := range rs {
 			m, err := r.Resource.UnmarshalNew()
@@ -1075,14 +1112,10 @@ func diffOutputs(a, b map[string]proto.Message) string {
 
 // diffTypes returns the resource types (cds/eds/rds/sds) in which two outputs differ.
 func diffTypes(a, b map[string]proto.Message) []string {
+	// only resources BOTH proxies get under the same name count: a name only one of them asks for can never be shared
 	seen := map[string]bool{}
 	for k, x := range a {
-		if y, ok := b[k]; !ok || !proto.Equal(x, y) {
-			seen[k[:3]] = true
-		}
-	}
-	for k := range b {
-		if _, ok := a[k]; !ok {
+		if y, ok := b[k]; ok && !proto.Equal(x, y) {
 			seen[k[:3]] = true
 		}
 	}
@@ -1191,7 +1224,13 @@ func genKeys(seed uint64, n int, path string) {
 			if r.Chance(2, 3) {
 				world &= r.Intn(1 << keysWorldBits) // mostly few configs dropped
 			}
-			world &^= 256 | 1<<9 | 1<<10 | 1<<13 | 1<<16 | 1<<17 | 1<<18
+			world &^= 256 | 1<<9 | 1<<10 | 1<<13 | 1<<16 | 1<<17 | 1<<18 | 1<<20
+			if r.Chance(1, 4) {
+				world |= 1 << 20 // one hostname in two namespaces
+				if r.Chance(2, 3) {
+					world |= 3 // ... and no DestinationRule whose name tells the two services apart in a key
+				}
+			}
 			if r.Chance(1, 6) {
 				world |= 1 << 16 // ISTIO_DUAL_STACK
 			}
